@@ -484,7 +484,7 @@ func parseField(v reflect.Value, data []byte, initOffset int, info *fieldInfo) (
 			return offset, nil
 		}
 
-		v.Set(reflect.MakeSlice(sliceType, 0, datalen))
+		v.Set(reflect.MakeSlice(sliceType, 0, 0))
 		single := reflect.New(sliceType.Elem())
 		for innerOffset := 0; innerOffset < len(inner); {
 			var err error
